@@ -94,7 +94,7 @@ PROPS = {
         level_text="Exploration: for generated valid files the three introspection calls are compared field by field with what an independent "
                    "thrift decoder and page walker find in the same bytes.",
         level_note="Trusted: pqref. The library's thrift schema predates RowGroup fields 5..7, which are therefore not compared.",
-        fixtures=["flat24", "nest", "tiny", "deep", "samename", "rep3", "big", "reqopt"],
+        fixtures=["flat24", "nest", "tiny", "deep", "samename", "rep3", "big"],
         gen_anchored=False,
         stages=[dict(test="TestC16", kind="rapid", quick=2400, thorough=48000), dict(test="TestC16Foreign", kind="rapid", quick=1600, thorough=32000),
                 dict(test="TestC16FooterSweep", kind="enum", quick=1, thorough=1)],
@@ -226,7 +226,7 @@ PROPS = {
                    "per-column codecs, hand-rolled snappy streams, optional thrift fields present/absent, non-zero padding bits); it must return the logical content.",
         level_note="Trusted: pqref's foreign writer; every foreign file is first validated by pqref's own walker and reassembled by the reference assembler (failure => exit 2, not a violation). "
                    "Layout limits of the documented subset are respected: v1 data pages, PLAIN, chunks contiguous from byte 4 in schema order.",
-        fixtures=["flat24", "nest", "tiny", "rep3"],
+        fixtures=["flat24", "nest", "tiny", "rep3", "reqopt"],
         gen_anchored=True,
         stages=[dict(test="TestC04", kind="rapid", quick=2400, thorough=48000), dict(test="FuzzC04", kind="fuzz", quick=0, thorough=120, timeout_thorough=900, bin="props.fuzz.test"),
                 dict(test="TestC04FooterSweep", kind="enum", quick=1, thorough=1)],
